@@ -396,6 +396,7 @@ func c05SelfConf(r *core.Run) {
 	}
 	r.Floor("C05.SELFCONF", "signature indexer", n, 1)
 	c05PatternDerivation(r)
+	c05IndependentMatching(r)
 	// matchers consult the same collections
 	callsOK, strsOK := false, false
 	for _, fn := range p.FuncsIn("pkg/detection") {
@@ -495,4 +496,68 @@ func c05PatternDerivation(r *core.Run) {
 		})
 	}
 	r.Floor("C05.SELFCONF", "pattern insert sites in the string-pattern extractor", nSites, 1)
+}
+
+
+// c05IndependentMatching: the indexer stores every call of the profile (every literal) as a requirement, and the
+// matchers look each requirement up in the scanned function's profile. A self match finds all of them only if each
+// requirement is decided on its own: a matcher that remembers, across requirements, which profile entries were
+// "used up" lets one requirement consume the entry another one needs (fmt.Sprint / fmt.Sprintf), and the indexed
+// function is no longer found with full confidence.
+func c05IndependentMatching(r *core.Run) {
+	p := r.P
+	n := 0
+	for _, fn := range p.FuncsIn("pkg/detection") {
+		rt := resultTypes(fn)
+		if len(rt) < 2 || rt[0].String() != "float64" || fn.Parent() != nil {
+			continue
+		}
+		// a matcher: ranges over a []string parameter (the requirements)
+		var req *ssa.Parameter
+		for _, pa := range fn.Params {
+			if pa.Type().String() == "[]string" {
+				req = pa
+			}
+		}
+		if req == nil {
+			continue
+		}
+		n++
+		// local maps/sets written inside a loop and consulted by a branch inside a loop
+		written := map[ssa.Value]ssa.Instruction{}
+		core.InstrsOf(fn, func(in ssa.Instruction) {
+			if mu, ok := in.(*ssa.MapUpdate); ok && core.LoopHeaderOf(mu.Block()) != nil {
+				if _, isLocal := core.Resolve(mu.Map).(*ssa.MakeMap); isLocal {
+					written[core.Resolve(mu.Map)] = in
+				} else if _, isLocal := mu.Map.(*ssa.MakeMap); isLocal {
+					written[mu.Map] = in
+				}
+			}
+		})
+		bad := ""
+		core.InstrsOf(fn, func(in ssa.Instruction) {
+			lk, ok := in.(*ssa.Lookup)
+			if !ok || core.LoopHeaderOf(lk.Block()) == nil {
+				return
+			}
+			m := core.Resolve(lk.X)
+			if _, w := written[m]; !w {
+				if _, w2 := written[lk.X]; !w2 {
+					return
+				}
+			}
+			if len(branchesOn(lk)) > 0 {
+				bad = p.Pos(lk.Pos())
+			}
+			if refs := lk.Referrers(); refs != nil {
+				for _, ref := range *refs {
+					if ex, ok := ref.(*ssa.Extract); ok && len(branchesOn(ex)) > 0 {
+						bad = p.Pos(lk.Pos())
+					}
+				}
+			}
+		})
+		r.Check(bad == "", "C05.SELFCONF", core.FuncName(fn)+"#requirements-decided-independently", fn.Pos(), "each requirement is looked up on its own (no bookkeeping shared between requirements decides a match)", "the matcher consults ("+bad+") a table it fills while matching other requirements: one requirement can use up the profile entry another one needs, so a function no longer matches the signature generated from itself")
+	}
+	r.Floor("C05.SELFCONF", "requirement matchers (score, matched…) over a []string of requirements", n, 2)
 }
